@@ -12,10 +12,11 @@
 (* cycle against the atomic witness), the service may restart on durable   *)
 (* or volatile storage, and the served checkpoint is observed over HTTP.   *)
 (***************************************************************************)
-EXTENDS WitnessCore
+EXTENDS Naturals, Sequences, FiniteSets, TLC, Json
 
-CONSTANTS Entries,      \* start-up: sequence of configuration entries [origin, key, feeder, url]
-          Durable       \* running: storage survives a restart
+CONSTANTS MaxEntries,   \* configurations of 1..MaxEntries entries are enumerated
+          Origins,      \* origin names (fewer origins than entries => duplicates occur)
+          SchemePanics  \* named deviation: the serverless feeder panics on an unsupported URL scheme instead of failing
 
 -----------------------------------------------------------------------------
 \* Part 1: start-up
@@ -23,15 +24,18 @@ KeyClasses == {"ok", "bad"}
 FeederClasses == {"sumdb", "tiles", "serverless", "pixel", "rekor", "none", "unknown"}
 UrlClasses == {"ok", "malformed", "badscheme", "notreeid"}
 
-VARIABLES sphase,     \* "parse" | "logs" | "map" | "feeders" | "serving" | "failed"
+VARIABLES Entries,    \* the configuration: sequence of entries [origin, key, feeder, url]   (never changes)
+          sphase,     \* "logs" | "map" | "feeders" | "serving" | "failed" | "panicked"
           widx,       \* entry being processed
           witmap,     \* ids in the witness map
           feeders     \* ids with a started feeder
-svars == <<sphase, widx, witmap, feeders>>
+svars == <<Entries, sphase, widx, witmap, feeders>>
+EntrySet == [origin : Origins, key : KeyClasses, feeder : FeederClasses, url : UrlClasses]
 
 Id(origin) == origin      \* ID is injective on origins: equal ids <=> equal origins
 
-SInit == sphase = "logs" /\ widx = 1 /\ witmap = {} /\ feeders = {}
+SInit == /\ Entries \in UNION {[1..k -> EntrySet] : k \in 1..MaxEntries}
+         /\ sphase = "logs" /\ widx = 1 /\ witmap = {} /\ feeders = {}
 
 \* config.NewLog for every entry (public key must parse; feeder type must be known to the YAML decoder)
 NewLog ==
@@ -58,17 +62,20 @@ StartFeeder ==
     /\ sphase = "feeders"
     /\ IF widx > Len(Entries) THEN sphase' = "serving" /\ UNCHANGED <<widx, feeders>>
        ELSE IF Entries[widx].feeder = "none" THEN sphase' = "feeders" /\ widx' = widx + 1 /\ feeders' = feeders
+       ELSE IF SchemePanics /\ Entries[widx].feeder = "serverless" /\ Entries[widx].url = "badscheme" THEN sphase' = "panicked" /\ UNCHANGED <<widx, feeders>>
        ELSE IF ~UrlOK(Entries[widx]) THEN sphase' = "failed" /\ UNCHANGED <<widx, feeders>>
        ELSE sphase' = "feeders" /\ widx' = widx + 1 /\ feeders' = feeders \cup {Id(Entries[widx].origin)}
     /\ UNCHANGED witmap
 
-SNext == NewLog \/ AsLogMap \/ StartFeeder
+SNext == (NewLog \/ AsLogMap \/ StartFeeder) /\ UNCHANGED Entries
 SSpec == SInit /\ [][SNext]_svars /\ WF_svars(SNext)
 
 Coherent == /\ \A j \in 1..Len(Entries) : Entries[j].key = "ok" /\ Entries[j].feeder # "unknown" /\ UrlOK(Entries[j])
             /\ \A j, k \in 1..Len(Entries) : j # k => Entries[j].origin # Entries[k].origin
 \* C17 / C12 on the model
-StartsIffCoherent == <>(sphase \in {"serving", "failed"}) /\ [](sphase = "serving" => Coherent) /\ [](sphase = "failed" => ~Coherent)
+StartsIffCoherent == <>(sphase \in {"serving", "failed", "panicked"}) /\ [](sphase = "serving" => Coherent) /\ [](sphase \in {"failed", "panicked"} => ~Coherent)
+CoherentStarts == Coherent => <>(sphase = "serving")
+EmitStart == sphase \in {"serving", "failed", "panicked"} => PrintT("START " \o ToJson([entries |-> Entries, outcome |-> sphase]))
 MapAndFeedersAgree ==
     sphase = "serving" => /\ witmap = {Id(Entries[j].origin) : j \in 1..Len(Entries)}
                           /\ feeders = {Id(Entries[j].origin) : j \in {k \in 1..Len(Entries) : Entries[k].feeder # "none"}}
